@@ -194,3 +194,71 @@ Example model_examples :
   /\ nonfile_input (B "http://1.2.3/"%string) = true /\ special_input (B "ws://x.y:80/p"%string) = true
   /\ auth_input (B "a://u@[::1]:81/x"%string) = true.
 Proof. split; [exact idna_clean_ok|]. vm_compute. repeat split. Qed.
+
+(* ================= a history step outside every Known class of C02_Reach.v that is no re-parse fixpoint ================= *)
+(* C09_Inst.opaque_ipv4_refuted at the level of URLs, executed on the linked model: Url::parse("a://x/"), then
+   set_ip_host(127.0.0.1) gives a://127.0.0.1/ with the host kind Ipv4; its serialization re-parses to the same
+   text and offsets with the host kind Domain (Host::parse_opaque does not read IPv4).  known_step is false for
+   the step; Url's PartialEq (serialization only) does not see the difference, Url::host() does. *)
+Definition set_ip_host_v4_witness : bool :=
+  match model_parse true idna_clean None None (B "a://x/"%string) with
+  | POk u =>
+      negb (known_step true (host_parse idna_clean) host_parse_opaque host_display u (C02_Reach.OSetIpHost (HIpv4 2130706433)))
+      && match set_ip_host true host_display u (HIpv4 2130706433) with
+         | Some (u', _) =>
+             list_eqb (ser u') (B "a://127.0.0.1/"%string) && hi_eqb (hosti u') (HI_Ipv4 2130706433)
+             && negb (Known_file_drive u')
+             && match model_parse true idna_clean None None (utf8_lossy (ser u')) with
+                | POk v => list_eqb (ser v) (ser u') && hi_eqb (hosti v) HI_Domain && negb (url_eqb v u')
+                | _ => false
+                end
+         | None => false
+         end
+  | _ => false
+  end.
+
+Theorem set_ip_host_v4_refuted : set_ip_host_v4_witness = true.
+Proof. vm_compute. reflexivity. Qed.
+
+(* the same as a refutation: C02's statement read for the linked model - every URL reachable through the API
+   outside the Known classes of C02_Reach.v is a fixpoint of serialize-then-parse AS A RECORD - is false.
+   (C02_statement itself is stated under HostOK, which no instance of the host model satisfies.)  A new class
+   is needed: set_ip_host with an IPv4 address on a URL whose scheme is not special. *)
+Definition C02_model_statement : Prop :=
+  forall dbg idna, IdnaOK idna -> forall u,
+    C02_Reach.Reachable dbg (host_parse idna) host_parse_opaque host_display u ->
+    Fixpoint_of_reparse dbg (host_parse idna) host_parse_opaque host_display u.
+
+Definition w_dummy : url := mkUrl [] 0 0 0 0 HI_None None 0 None None.
+Definition w_input : list N := B "a://x/"%string.
+Definition w_op : C02_Reach.op := C02_Reach.OSetIpHost (HIpv4 2130706433).
+Definition w_u0 : url := match model_parse true idna_clean None None w_input with POk u => u | _ => w_dummy end.
+Definition w_u1 : url :=
+  match C02_Reach.apply_op true (host_parse idna_clean) host_parse_opaque host_display w_u0 w_op with
+  | Some u => u | None => w_dummy end.
+
+Lemma w_facts :
+  parse_url true (host_parse idna_clean) host_parse_opaque host_display None None w_input = POk w_u0
+  /\ Known_file_drive w_u0 = false
+  /\ known_step true (host_parse idna_clean) host_parse_opaque host_display w_u0 w_op = false
+  /\ C02_Reach.apply_op true (host_parse idna_clean) host_parse_opaque host_display w_u0 w_op = Some w_u1
+  /\ Known_file_drive w_u1 = false
+  /\ match reparse true (host_parse idna_clean) host_parse_opaque host_display w_u1 with
+     | POk v => list_eqb (ser v) (ser w_u1) && hi_eqb (hosti v) HI_Domain && hi_eqb (hosti w_u1) (HI_Ipv4 2130706433)
+     | _ => false
+     end = true.
+Proof. vm_compute. repeat split; reflexivity. Qed.
+
+Lemma w_input_usv : usv_list w_input.
+Proof. apply Forall_forall. intros c Hc. vm_compute in Hc. unfold is_usv. repeat (destruct Hc as [<-|Hc]; [lia|]). destruct Hc. Qed.
+
+Theorem C02_model_refuted : ~ C02_model_statement.
+Proof.
+  intros H. destruct w_facts as (E0 & K0 & KS & E1 & K1 & R).
+  pose proof w_input_usv as Hu.
+  assert (R1 : C02_Reach.Reachable true (host_parse idna_clean) host_parse_opaque host_display w_u1).
+  { eapply C02_Reach.R_step; [eapply C02_Reach.R_parse; [exact Hu | exact E0 | exact K0] | | exact KS | exact E1 | exact K1].
+    exact (eq_refl : (2130706433 ?= 4294967296) = Lt). }
+  pose proof (H true idna_clean idna_clean_ok w_u1 R1) as F. unfold Fixpoint_of_reparse in F.
+  rewrite F in R. vm_compute in R. discriminate R.
+Qed.
